@@ -40,6 +40,9 @@ type PPS struct {
 	SecondChromaQpIndexOffset             int
 }
 
+// maxNumRefIdxActiveMinus1 is the largest value of num_ref_idx_lX_(default_)active_minus1 (Sections 7.4.2.2 and 7.4.3)
+const maxNumRefIdxActiveMinus1 = 31
+
 // AVC PPS errors
 var (
 	ErrNotPPS = errors.New("not an PPS NAL unit")
@@ -100,6 +103,10 @@ func ParsePPSNALUnit(data []byte, spsMap map[uint32]*SPS) (*PPS, error) {
 	}
 	pps.NumRefIdxI0DefaultActiveMinus1 = reader.ReadExpGolomb()
 	pps.NumRefIdxI1DefaultActiveMinus1 = reader.ReadExpGolomb()
+	if pps.NumRefIdxI0DefaultActiveMinus1 > maxNumRefIdxActiveMinus1 || pps.NumRefIdxI1DefaultActiveMinus1 > maxNumRefIdxActiveMinus1 {
+		return nil, fmt.Errorf("num_ref_idx_default_active_minus1 %d/%d too big",
+			pps.NumRefIdxI0DefaultActiveMinus1, pps.NumRefIdxI1DefaultActiveMinus1)
+	}
 	pps.WeightedPredFlag = reader.ReadFlag()
 	pps.WeightedBipredIDC = reader.Read(2)
 	pps.PicInitQpMinus26 = reader.ReadSignedGolomb()
